@@ -204,51 +204,120 @@ def clause_results(cfg, o):
 
 
 # --------------------------------------------------------------------------- R: configuration spaces
-def iter_json_dump(path, chunk):
-    if not path.endswith(".dump"):
-        path += ".dump"
-    buf = []
+class Acc:
+    """what one chunk of a configuration space contributes (picklable: chunks run in worker processes)"""
+
+    def __init__(self):
+        self.real_fail = {c: set() for c in CLAUSES}
+        self.model_fail = {c: set() for c in CLAUSES}
+        self.drift, self.spec = {}, {}
+        self.n = self.refused = self.git_ran = self.dulwich_only = self.git_processes = 0
+        self.nontrivial = set()
+        self.sample = None
+
+    def add_drift(self, kind, example):
+        n, ex = self.drift.get(kind, (0, None))
+        self.drift[kind] = (n + 1, ex if ex is not None else example)
+
+    def add_spec(self, kind, example):
+        n, ex = self.spec.get(kind, (0, None))
+        self.spec[kind] = (n + 1, ex if ex is not None else example)
+
+
+def _cfg_chunk_job(args):
+    """worker process: one chunk of enumerated configurations on the real dulwich and the real git"""
+    space, path, full_len, seed, modulus, scratch = args
+    R.GIT_WORKERS = 3
     with open(path, encoding="utf-8") as f:
+        cases = [json.loads(line) for line in f]
+    acc = Acc()
+    _replay_cfg_chunk(acc, space, cases, full_len, seed, modulus, scratch)
+    acc.sample = cases[len(cases) // 3]
+    return acc
+
+
+def split_json_dump(dump, outdir, chunk):
+    """the JSON of every state of a TLC dump, as files of <= chunk lines (no parsing here)"""
+    if not dump.endswith(".dump"):
+        dump += ".dump"
+    paths, buf = [], []
+
+    def flush():
+        p = os.path.join(outdir, f"{os.path.basename(dump)}.{len(paths)}.ndjson")
+        with open(p, "w", encoding="utf-8") as f:
+            f.write("\n".join(buf) + "\n")
+        paths.append(p)
+        buf.clear()
+    with open(dump, encoding="utf-8") as f:
         for line in f:
             if line.startswith('/\\ j = "'):
                 s = line[8:].rstrip()[:-1]
                 if s:
-                    buf.append(json.loads(s.replace('\\"', '"')))
+                    buf.append(s.replace('\\"', '"'))
                     if len(buf) >= chunk:
-                        yield buf
-                        buf = []
+                        flush()
     if buf:
-        yield buf
+        flush()
+    return paths
 
 
-def replay_cfg_space(ctx, book, space, dump, variant, full_len):
+def explain(ctx, space, x, clause):
+    """the observed results for one case, in words (re-executed; used for the few cases that are reported)"""
+    cfg = cfg_of(space, x)
+    o = execute_cfgs(ctx, [cfg])[0]
+    return clause_results(cfg, o)[clause][1] or "(not reproduced when executed alone)"
+
+
+def replay_cfg_space(ctx, book, space, dump, variant, full_len, procs):
     """every enumerated configuration on the real dulwich writer/reader; the real git on every case up to length
     full_len (quick 3, thorough 4), on every 8th (quick) / 4th (thorough) longer one, and on every case where
-    dulwich's bytes are not the model's.  -> (number of cases, a sample case)"""
-    real_fail = {c: {} for c in CLAUSES}
+    dulwich's bytes are not the model's.  Chunks run in worker processes.  -> (number of cases, a sample case)"""
+    d = ctx.tmpdir("chunks")
+    paths = split_json_dump(dump, d, ctx.pick(11000, 30000))
+    jobs = [(space, p, full_len, ctx.seed, ctx.pick(8, 4), ctx.scratch) for p in paths]
+    if len(jobs) == 1:
+        accs = [_cfg_chunk_job(jobs[0])]
+    else:
+        accs = list(procs.map(_cfg_chunk_job, jobs))
+    real_fail = {c: set() for c in CLAUSES}
     model_fail = {c: set() for c in CLAUSES}
-    refused = total = 0
-    sample = None
+    total = refused = 0
     stats = {"git_ran": 0, "dulwich_only": 0}
-    for cases in iter_json_dump(dump, 40000):
-        total += len(cases)
-        sample = sample or cases[len(cases) // 3]
-        refused += _replay_cfg_chunk(ctx, book, space, cases, real_fail, model_fail, full_len, stats)
+    for a in accs:
+        total += a.n
+        refused += a.refused
+        stats["git_ran"] += a.git_ran
+        stats["dulwich_only"] += a.dulwich_only
+        ctx.count(a.n)
+        ctx.validated(a.n)
+        for x in a.nontrivial:
+            ctx.nontrivial((space, x))
+        ctx.cov["git_processes"] = ctx.cov.get("git_processes", 0) + a.git_processes
+        for cl in CLAUSES:
+            real_fail[cl] |= a.real_fail[cl]
+            model_fail[cl] |= a.model_fail[cl]
+        for kind, (n, ex) in a.drift.items():
+            for _ in range(n):
+                book.add_drift(kind, ex)
+        for kind, (n, ex) in a.spec.items():
+            for _ in range(n):
+                book.add_spec(kind, ex)
     # ---- property verdicts: minimal failing cases, separately for failures the tree's model predicts
     summary = {}
     for cl in CLAUSES:
-        rf = set(real_fail[cl])
+        rf = real_fail[cl]
         pred, unpred = rf & model_fail[cl], rf - model_fail[cl]
         summary[cl] = {"failing": len(rf), "predicted_by_model": len(pred), "model_only": len(model_fail[cl] - rf)}
         for S, p in ((pred, True), (unpred, False)):
             for x in minimal(S):
-                report(ctx, space, cl, x, cfg_of(space, x), real_fail[cl][x], p, variant)
+                report(ctx, space, cl, x, cfg_of(space, x), explain(ctx, space, x, cl), p, variant)
     summary["git_refused_to_store"] = refused
     ctx.cov.setdefault("spaces", {})[space] = dict(summary, cases=total, **stats)
-    return total, sample
+    shutil.rmtree(d, ignore_errors=True)
+    return total, accs[0].sample
 
 
-def _replay_cfg_chunk(ctx, book, space, cases, real_fail, model_fail, full_len, stats):
+def _replay_cfg_chunk(acc, space, cases, full_len, seed, modulus, scratch):
     xs = [bytes(c["x"]) for c in cases]
     cfgs = [cfg_of(space, x) for x in xs]
     mdw = [bytes(c["dw"]) for c in cases]
@@ -265,16 +334,16 @@ def _replay_cfg_chunk(ctx, book, space, cases, real_fail, model_fail, full_len, 
         outs.append(o)
     # which cases go through the git binary
     for o, x, m in zip(outs, xs, mdw):
-        o["git"] = len(x) <= full_len or o["dw"] != m or (int.from_bytes(hashlib.sha1(x).digest()[:4], "big") + ctx.seed) % ctx.pick(8, 4) == 0
+        o["git"] = len(x) <= full_len or o["dw"] != m or (int.from_bytes(hashlib.sha1(x).digest()[:4], "big") + seed) % modulus == 0
     gi = [i for i, o in enumerate(outs) if o["git"]]
-    stats["git_ran"] += len(gi)
-    stats["dulwich_only"] += len(outs) - len(gi)
+    acc.git_ran += len(gi)
+    acc.dulwich_only += len(outs) - len(gi)
     # git reads dulwich's bytes (batched where the model expects git to accept exactly these bytes)
     st = {}
     batch = [outs[i]["dw"] is not None and outs[i]["dw"] == mdw[i] and mgr[i][0] for i in gi]
-    grs = R.git_read_smart(ctx.scratch, [outs[i]["dw"] if outs[i]["dw"] is not None else b"[" for i in gi], batch, st)
+    grs = R.git_read_smart(scratch, [outs[i]["dw"] if outs[i]["dw"] is not None else b"[" for i in gi], batch, st)
     # git writes, dulwich reads
-    gws = R.git_write_single_many(ctx.scratch, [(R.git_key(cfgs[i][0], cfgs[i][0]["items"][0][0]), cfgs[i][0]["items"][0][1]) for i in gi])
+    gws = R.git_write_single_many(scratch, [(R.git_key(cfgs[i][0], cfgs[i][0]["items"][0][0]), cfgs[i][0]["items"][0][1]) for i in gi])
     need = []
     for i, g, gw in zip(gi, grs, gws):
         o, cfg = outs[i], cfgs[i]
@@ -285,62 +354,61 @@ def _replay_cfg_chunk(ctx, book, space, cases, real_fail, model_fail, full_len, 
             if not (o["dg"][0] and R.same_meaning(R.flat(o["dg"][1]), R.flat(cfg))):
                 need.append(i)
     # where dulwich does not read the stored value from git's file: what does git itself read from it?
-    ggs = R.git_read_many(ctx.scratch, [outs[i]["gw"] for i in need])
+    ggs = R.git_read_many(scratch, [outs[i]["gw"] for i in need])
     for i, g in zip(need, ggs):
         outs[i]["gg"] = g
-    ctx.cov["git_processes"] = ctx.cov.get("git_processes", 0) + st.get("git_read_processes", 0) + len(gws) + len(need)
-    refused = 0
+    acc.git_processes += st.get("git_read_processes", 0) + len(gws) + len(need)
     for c, x, cfg, o, m_dw, m_gr in zip(cases, xs, cfgs, outs, mdw, mgr):
-        ctx.count()
-        ctx.validated()
+        acc.n += 1
         if SPECIAL & set(x):
-            ctx.nontrivial((space, x))
+            acc.nontrivial.add(x)
         if not o["git"]:
             # dulwich only: the round trip, and the reader on the bytes Config.tla says git writes (conformance only)
             if not c["rt"]:
-                model_fail["RoundTrip"].add(x)
+                acc.model_fail["RoundTrip"].add(x)
             ok, rc, exc = o["dr"]
             if not (ok and R.norm(rc) == R.norm(cfg)):
-                real_fail["RoundTrip"][x] = f"dulwich wrote {o['dw']!r} and read back " + (cfg_show(rc) if ok else f"an error ({exc})")
+                acc.real_fail["RoundTrip"].add(x)
             m_dr = R.dulres_from_json(c["dr"][0]) if c["dr"] else (True, cfg)
             if (ok, rc) != m_dr:
-                book.add_drift(f"{space}/DulRead", f"file {o['dw']!r}: real {o['dr']!r}, model {m_dr!r}")
+                acc.add_drift(f"{space}/DulRead", f"file {o['dw']!r}: real {o['dr']!r}, model {m_dr!r}")
             dg = o["dr"] if bytes(c["gw"]) == o["dw"] else R.dul_read(bytes(c["gw"]))
             m_dg = R.dulres_from_json(c["dg"][0]) if c["dg"] else (True, cfg)
             if (dg[0], dg[1]) != m_dg:
-                book.add_drift(f"{space}/DulRead(git)", f"file {bytes(c['gw'])!r}: real {dg!r}, model {m_dg!r}")
+                acc.add_drift(f"{space}/DulRead(git)", f"file {bytes(c['gw'])!r}: real {dg!r}, model {m_dg!r}")
+            if o["dw"] != m_dw:
+                acc.add_drift(f"{space}/DulWrite", f"{KIND[space]} {x!r}: real {o['dw']!r}, model {m_dw!r}")
             continue
         for cl, flag in zip(CLAUSES, ("rt", "dgok", "gd")):
             if not c[flag]:
-                model_fail[cl].add(x)
+                acc.model_fail[cl].add(x)
         res = clause_results(cfg, o)
         for cl in CLAUSES:
             if not res[cl][0]:
-                real_fail[cl][x] = res[cl][1]
+                acc.real_fail[cl].add(x)
         # ---- conformance of the model with the real programs
         if o["dw"] != m_dw:
-            book.add_drift(f"{space}/DulWrite", f"{KIND[space]} {x!r}: real {o['dw']!r}, model {m_dw!r}")
+            acc.add_drift(f"{space}/DulWrite", f"{KIND[space]} {x!r}: real {o['dw']!r}, model {m_dw!r}")
         else:
             m_dr = R.dulres_from_json(c["dr"][0]) if c["dr"] else (True, cfg)
             if (o["dr"][0], o["dr"][1]) != m_dr:
-                book.add_drift(f"{space}/DulRead", f"file {o['dw']!r}: real {o['dr']!r}, model {m_dr!r}")
+                acc.add_drift(f"{space}/DulRead", f"file {o['dw']!r}: real {o['dr']!r}, model {m_dr!r}")
             if (o["gr"][0], o["gr"][1]) != (m_gr[0], m_gr[1] if m_gr[0] else []):
-                book.add_spec(f"{space}/GitRead", f"file {o['dw']!r}: git {o['gr']!r}, model {m_gr!r}")
+                acc.add_spec(f"{space}/GitRead", f"file {o['dw']!r}: git {o['gr']!r}, model {m_gr!r}")
         if o["gw"] is None:
-            refused += 1
+            acc.refused += 1
             continue
         m_gw = bytes(c["gw"])
         if o["gw"] != m_gw:
-            book.add_spec(f"{space}/GitWrite", f"{KIND[space]} {x!r}: git {o['gw']!r}, model {m_gw!r}")
+            acc.add_spec(f"{space}/GitWrite", f"{KIND[space]} {x!r}: git {o['gw']!r}, model {m_gw!r}")
         else:
             m_dg = R.dulres_from_json(c["dg"][0]) if c["dg"] else (True, cfg)
             if (o["dg"][0], o["dg"][1]) != m_dg:
-                book.add_drift(f"{space}/DulRead(git)", f"file {o['gw']!r}: real {o['dg']!r}, model {m_dg!r}")
+                acc.add_drift(f"{space}/DulRead(git)", f"file {o['gw']!r}: real {o['dg']!r}, model {m_dg!r}")
             if "gg" in o:
                 m_gg = R.gitres_from_json(c["gg"][0]) if c["gg"] else (True, R.flat(cfg))
                 if (o["gg"][0], o["gg"][1]) != (m_gg[0], m_gg[1] if m_gg[0] else []):
-                    book.add_spec(f"{space}/GitRead(git)", f"file {o['gw']!r}: git {o['gg']!r}, model {m_gg!r}")
-    return refused
+                    acc.add_spec(f"{space}/GitRead(git)", f"file {o['gw']!r}: git {o['gg']!r}, model {m_gg!r}")
 
 
 # --------------------------------------------------------------------------- R: hand-written files (reader automata)
@@ -850,7 +918,8 @@ def run(ctx):
     book = Book(ctx)
     plan = [("val", ctx.pick(4, 5)), ("fval", ctx.pick(3, 4)), ("fhdr", ctx.pick(3, 4)), ("sub", ctx.pick(3, 4)), ("name", ctx.pick(2, 3))]
     order = ["sub", "name", "val"]      # val last: its enumeration takes longest
-    with cf.ThreadPoolExecutor(3) as pool:
+    import multiprocessing
+    with cf.ThreadPoolExecutor(3) as pool, cf.ProcessPoolExecutor(4, mp_context=multiprocessing.get_context("spawn")) as procs:
         gens = {sp: pool.submit(tlc_cases, d, sp, ml, variant, ctx.pick(4, 6) if sp == "val" else ctx.pick(2, 1)) for sp, ml in plan}
         mi = ctx.pick(2, 3)
         opsfut = pool.submit(ops_tlc, d, variant, mi, ctx.pick(2, 6), not ctx.quick)
@@ -872,7 +941,7 @@ def run(ctx):
             ml = dict(plan)[sp]
             res, dump = gens[sp].result()
             ctx.add_tlc(f"ConfigCases[{sp}<={ml}] tree variant: DulWrite/DulRead/GitRead/GitWrite per case", res)
-            n, c = replay_cfg_space(ctx, book, sp, dump, variant, ctx.pick(3, 4))
+            n, c = replay_cfg_space(ctx, book, sp, dump, variant, ctx.pick(3, 4), procs)
             ctx.log(f"{sp}<={ml}: {n} configurations through dulwich and git  {ctx.cov['spaces'][sp]}")
             ctx.sample({"kind": sp, KIND[sp]: repr(bytes(c["x"])), "dulwich_writes": repr(bytes(c["dw"])), "git_writes": repr(bytes(c["gw"]))})
         finish_model_check(ctx, mc)
